@@ -88,7 +88,18 @@ def translate(repo: str):
     rer = _calls(kr, "reroute_invocations")
     kill_then = len(sets) == 1 and "KILLED" in ast.dump(sets[0]) and len(rer) == 1 and sets[0].lineno < rer[0].lineno
     tries = [n for n in kr.body if isinstance(n, ast.Try)]
-    ignores = bool(tries) and any("InvocationStatus" in ast.dump(h.type) for t in tries for h in t.handlers if h.type is not None) \
+    # a refused KILLED / REROUTED can be a transition refusal (final, already released) or an ownership refusal (another runner
+    # holds it by now): both must be swallowed — a handler for their common base class, or one handler for each
+    caught: set[str] = set()
+    for t in tries:
+        for h in t.handlers:
+            if h.type is None:
+                caught.add("*")
+            else:
+                caught |= {n.id for n in ast.walk(h.type) if isinstance(n, ast.Name)} | {n.attr for n in ast.walk(h.type) if isinstance(n, ast.Attribute)}
+    covers = bool(caught & {"*", "Exception", "PynencError", "InvocationStatusError"}) or \
+        {"InvocationStatusTransitionError", "InvocationStatusOwnershipError"} <= caught
+    ignores = bool(tries) and covers \
         and not any(isinstance(x, ast.Raise) for t in tries for h in t.handlers for x in ast.walk(h))
     f = {"waiting_frees_slot": frees, "blocking_first": blocking_first,
          "stop_kills_alive_before_join": alive == ["_kill_and_reroute", "join"],
